@@ -14,13 +14,15 @@ RULE = ("family A: one chip, capacity 8, every ordered list of <=2 (thorough "
         "<=3) disjoint reserved ranges each global or per-chip, alignment in "
         "{none,1,2,3,4}, every ordered tuple of <=3 vertices needing 0..4; "
         "family C: three chips, one with more and one with less than the machine-wide amount, reservations anywhere in the larger range; family B: two chips (one a resource exception) x second resource x "
-        "reservation menu x all placements x all placement-dict orders. "
+        "reservation menu x all placements x all placement-dict orders; "
+        "family H: ordered pairs of 12 calls in one process. "
         "Non-trivial: at least one vertex needs >0 and at least one "
         "reservation or alignment or second chip is involved; cases are "
         "distinct by construction (nested enumeration without repetition)")
 ASSUMPTIONS = [
-    "reservations are disjoint and inside every chip they apply to (the "
-    "constraint's documented precondition)",
+    "reservations are pairwise disjoint (the constraint's documented "
+    "precondition); in family C a global reservation may lie beyond the end "
+    "of a chip that has less than the machine-wide amount",
     "completeness clause is demanded only without alignment and when the "
     "unreserved part of each chip's range is one contiguous interval",
 ]
